@@ -134,6 +134,12 @@ impl P22 {
                         if tier == Tier::Thorough {
                             for c in &f {
                                 cases.push(Case { opener: oi, target: ti, calls: vec![a, b, c] });
+                                // depth 4 only where the open succeeds (otherwise the follow-ups never run)
+                                if !open_fails(OPENERS[oi].0, TARGETS[ti]) {
+                                    for d in &f {
+                                        cases.push(Case { opener: oi, target: ti, calls: vec![a, b, c, d] });
+                                    }
+                                }
                             }
                         }
                     }
@@ -328,7 +334,7 @@ impl Property for P22 {
         }
     }
     fn rule(&self) -> String {
-        format!("fault alphabet {:?} (ENOENT, EISDIR at open or at the first read, EEXIST under mode x, ENOSPC via /dev/full at flush or when the 8 KiB buffer spills, ENOTDIR, empty / 10-byte / garbage / half-record pcap input) x openers {:?} x every sequence of <= 2 (quick) or <= 3 (thorough) follow-up calls appropriate to the handle (read, read(n), read_line, read_to_string / write small, write 9600 bytes, flush, write bytes / pcap_read_next, pcap_read_all / pcap_write, 200 pcap_writes); each sequence is a script run through the real compiler and VM; oracle: the script reaches its end without a runtime error, every call that meets the failure returns a value with is_error == true and every other call does not; pcap_stream(stdin) with each bad input through the binary; write/flush on the stdout handle through the binary with standard output redirected to /dev/full. EACCES cannot be provoked (the sandbox runs as root)", TARGETS, OPENERS.iter().map(|o| o.0).collect::<Vec<_>>())
+        format!("fault alphabet {:?} (ENOENT, EISDIR at open or at the first read, EEXIST under mode x, ENOSPC via /dev/full at flush or when the 8 KiB buffer spills, ENOTDIR, empty / 10-byte / garbage / half-record pcap input) x openers {:?} x every sequence of <= 2 (quick) or <= 4 (thorough; 4 only after a successful open) follow-up calls appropriate to the handle (read, read(n), read_line, read_to_string / write small, write 9600 bytes, flush, write bytes / pcap_read_next, pcap_read_all / pcap_write, 200 pcap_writes); each sequence is a script run through the real compiler and VM; oracle: the script reaches its end without a runtime error, every call that meets the failure returns a value with is_error == true and every other call does not; pcap_stream(stdin) with each bad input through the binary; write/flush on the stdout handle through the binary with standard output redirected to /dev/full. EACCES cannot be provoked (the sandbox runs as root)", TARGETS, OPENERS.iter().map(|o| o.0).collect::<Vec<_>>())
     }
     fn bounds(&self) -> Value {
         json!({"sequences": self.cases.len(), "binary_runs": if self.e2e { 5 + STDOUT_FULL.len() } else { 0 }})
